@@ -198,6 +198,10 @@ class Parser:
             return Expr("((%s) ^^^ (%s))" % (a.lean, b.lean), ty)
         if op in ("+", "*"):
             return Expr(self.wrap("(%s) %s (%s)" % (a.lean, op, b.lean), ty), ty)
+        if op == "-":
+            # Rust panics on underflow (debug) — the guards in front of every extracted subtraction are
+            # extracted too, and the model states the no-underflow side condition where it uses one
+            return Expr("((%s) - (%s))" % (a.lean, b.lean), ty)
         if op == "==":
             return Expr("((%s) == (%s))" % (a.lean, b.lean), "bool")
         if op == "!=":
@@ -283,6 +287,18 @@ class Parser:
                 self.next()
                 self.next()
                 return Expr(self.env[key][0], self.env[key][1])
+            # generic dotted field path `a.b.c` (not a method call) that the environment knows
+            if self.peek()[1] == "." and self.i + 1 < len(self.toks) and self.toks[self.i + 1][0] == "id":
+                j = self.i
+                parts = [name]
+                while j + 1 < len(self.toks) and self.toks[j][1] == "." and self.toks[j + 1][0] == "id" \
+                        and not (j + 2 < len(self.toks) and self.toks[j + 2][1] == "("):
+                    parts.append(self.toks[j + 1][1])
+                    j += 2
+                key = ".".join(parts)
+                if len(parts) > 1 and key in self.env:
+                    self.i = j
+                    return Expr(self.env[key][0], self.env[key][1])
             if name in self.env:
                 return Expr(self.env[name][0], self.env[name][1])
             if name in self.consts:
@@ -402,7 +418,7 @@ class Gen:
     def emit(self, s=""):
         self.lines.append(s)
 
-    def attempt(self, item, fn):
+    def attempt(self, item, fn, on_fail=None):
         try:
             fn()
             self.report[item] = "ok"
@@ -410,6 +426,8 @@ class Gen:
             self.missing.append(item)
             self.report[item] = "MISSING: %s" % ex
             self.emit("-- MISSING %s : %s" % (item, str(ex).replace("\n", " ")))
+            if on_fail:
+                on_fail()
 
     def const(self, path, name, lean_name=None):
         lean_name = lean_name or name
@@ -443,6 +461,42 @@ class Gen:
             for n, v in found:
                 self.emit("def %s%s : Nat := %s" % (lean_prefix, n, v))
         self.attempt("%s:%s::consts" % (path, tyname), go)
+
+    def guard(self, props, path, fn, pattern, lean_name, params, env, subst=(), ret="Bool", occurrence=0, count=1):
+        """An expression INSIDE a function body: `pattern` is a regex with one group that captures the
+        expression text; it must match exactly `count` times in the body of `fn`.  `subst` = textual
+        rewrites (regex, replacement identifier) applied to the captured text first, for sub-expressions
+        that are not integer arithmetic (`question.qname == self.qname` → an opaque Bool parameter).
+        The item is tagged with the properties whose theorems pin it."""
+        item = "guard[%s] %s:fn %s:%s" % (",".join(props), path, fn, lean_name)
+
+        def go():
+            src = strip_comments(read(path))
+            _, _, body = find_fn_body(src, fn, occurrence)
+            ms = list(re.finditer(pattern, body, flags=re.S))
+            if len(ms) != count:
+                raise ParseError("%s: pattern /%s/ matches %d times in fn %s (expected %d)" % (lean_name, pattern, len(ms), fn, count))
+            text = ms[0].group(1)
+            for m in ms[1:]:
+                if " ".join(m.group(1).split()) != " ".join(text.split()):
+                    raise ParseError("%s: occurrences differ" % lean_name)
+            raw = " ".join(text.split())
+            for rx, rep in subst:
+                text = re.sub(rx, rep, text, flags=re.S)
+            ex = translate_expr(text, env, self.consts)
+            lty = "Bool" if ex.ty == "bool" else "Nat"
+            if ret and ret != lty:
+                raise ParseError("%s: expected %s, got %s" % (lean_name, ret, lty))
+            ps = " ".join("(%s : %s)" % (n, t) for n, t in params)
+            self.emit("/-- `%s` : in `fn %s` : `%s` -/" % (path, fn, raw))
+            self.emit("def %s %s : %s := %s" % (lean_name, ps, lty, ex.lean))
+        def placeholder():
+            # keeps the rest of the development (and the driver) building; the item is reported as
+            # missing, and every closed-form theorem about this guard fails on the placeholder
+            ps = " ".join("(%s : %s)" % (n, t) for n, t in params)
+            self.emit("/-- PLACEHOLDER: the translator could not read this expression from `%s` -/" % path)
+            self.emit("def %s %s : %s := %s" % (lean_name, ps, ret or "Bool", "false" if (ret or "Bool") == "Bool" else "0"))
+        self.attempt(item, go, placeholder)
 
     def func(self, path, name, lean_name, params, env_extra=None, ret=None, occurrence=0, body_filter=None):
         """params: list of (lean_param, rust_names, type). rust_names map to the lean param."""
@@ -623,6 +677,79 @@ def gen_all():
     g.attempt("templates/async_client_impl.rs:strategy", lambda: strategy("templates/async_client_impl.rs", "async"))
     g.const("src/clients/std/client_impl.rs", "QUERY_BUFFER_SIZE", "STD_QUERY_BUFFER_SIZE")
     g.const("templates/async_client_impl.rs", "QUERY_BUFFER_SIZE", "ASYNC_QUERY_BUFFER_SIZE")
+    e("")
+
+    # ---- decision points of the query clients (both sources: hand-written std, async template) -------
+    # the executable client model evaluates every one of these, so each is an obligation of all six
+    # client properties
+    CL = ["C11", "C12", "C13", "C14", "C15", "C16"]
+
+    def client_guards(path, p, std):
+        B, N = "Bool", "Nat"
+        # query_raw (ClientImpl): the caller's buffer must hold a minimal message
+        g.guard(CL, path, "query_raw", r"\bif\s+(buf\.len\(\)\s*<[^{]*?)\s*\{\s*return\s+Err\(\s*Error::BufferTooShort",
+                p + "_buf_too_short", [("buf_len", N)], {"buf": ("buf", "usize")})
+        # query_rrset: parameter gates
+        g.guard(CL, path, "query_rrset", r"\bif\s+([^{]*?)\s*\{\s*return\s+Err\(\s*Error::BadParam",
+                p + "_rrset_no_buffer", [("cfgbuf", N)], {"CFGBUF": ("cfgbuf", "usize")},
+                subst=[(r"self\.config\.buffer_size\(\)", "CFGBUF")])
+        g.guard(CL, path, "query_rrset", r"\bif\s+([^{]*?)\s*\{\s*return\s+Err\(\s*Error::UnsupportedClass",
+                p + "_rrset_bad_class", [("is_data_class", B)], {"ISDATA": ("is_data_class", "bool")},
+                subst=[(r"qclass\.is_data_class\(\)", "ISDATA")])
+        # query_raw_impl: truncation fallback
+        g.guard(CL, path, "query_raw_impl", r"\bif\s+(flags\.truncated\(\)[^{]*?)\s*\{\s*self\.tcp_exchange\(\)",
+                p + "_tcp_fallback", [("tc", B), ("tcp_allowed", B)],
+                {"TC": ("tc", "bool"), "TCPOK": ("tcp_allowed", "bool")},
+                subst=[(r"flags\.truncated\(\)", "TC"), (r"self\.tcp_allowed\(\)", "TCPOK")])
+        g.guard(CL, path, "query_raw_impl", r"\bif\s+(self\.udp_first\(\))\s*\{",
+                p + "_udp_branch", [("udp_first", B)], {"UDPFIRST": ("udp_first", "bool")},
+                subst=[(r"self\.udp_first\(\)", "UDPFIRST")])
+        # tcp_exchange: the length prefix and its bound
+        g.guard(CL, path, "tcp_exchange", r"let\s+response_size\s*=\s*(u16::from_be_bytes\(response_size_buf\)\s+as\s+usize)\s*;",
+                p + "_tcp_prefix", [("b0", N), ("b1", N)], {"B0": ("b0", "u16"), "B1": ("b1", "u16")},
+                subst=[(r"u16::from_be_bytes\(response_size_buf\)", "((B0 << 8) | B1)")], ret="Nat")
+        g.guard(CL, path, "tcp_exchange", r"\bif\s+(response_size\s*>[^{]*?)\s*\{\s*return\s+Err\(\s*Error::BufferTooShort\(\s*response_size\s*\)",
+                p + "_tcp_too_big", [("response_size", N), ("buf_len", N)],
+                {"response_size": ("response_size", "usize"), "self.buf": ("buf", "usize")})
+        # udp_receive_loop: the acceptance filter
+        g.guard(CL, path, "udp_receive_loop", r"\bif\s+(header\.id[^{]*?)\s*\{\s*continue\s*;",
+                p + "_udp_id_reject", [("header_id", N), ("msg_id", N)],
+                {"header.id": ("header_id", "u16"), "self.msg_id": ("msg_id", "u16")})
+        g.guard(CL, path, "udp_receive_loop",
+                r"if\s+let\s+Ok\(question\)\s*=\s*mr\.the_question\(\)\s*\{\s*if\s+([^{]*?)\s*\{\s*return\s+Ok\(\(size,\s*header\.flags\)\)",
+                p + "_udp_question_match", [("qtype_eq", B), ("qclass_eq", B), ("qname_eq", B)],
+                {"QT": ("qtype_eq", "bool"), "QC": ("qclass_eq", "bool"), "QN": ("qname_eq", "bool")},
+                subst=[(r"question\.qtype\s*==\s*self\.qtype", "QT"), (r"question\.qclass\s*==\s*self\.qclass", "QC"),
+                       (r"question\.qname\s*==\s*self\.qname", "QN")])
+        # prepare_message: the advertised payload size
+        g.guard(CL, path, "prepare_message", r"let\s+ups\s*=\s*([^;]*?)\s*;",
+                p + "_ups", [("udp_payload_size", N), ("buf_len", N)],
+                {"udp_payload_size": ("udp_payload_size", "u16"), "self.buf": ("buf", "usize")}, ret="Nat")
+        g.guard(CL, path, "prepare_message", r"Some\(\s*Opt::new\(\s*version\s*,\s*([^)]*?)\s*\)\s*\)",
+                p + "_ups_field", [("ups", N)], {"ups": ("ups", "usize")}, ret="Nat")
+        if std:
+            # the blocking client's clock arithmetic
+            g.guard(CL, path, "time_left", r"\bif\s+([^{]*?)\s*\{\s*return\s+Err\(\s*Error::Timeout\s*\)",
+                    p + "_lifetime_over", [("elapsed", N), ("lifetime", N)],
+                    {"elapsed": ("elapsed", "u64"), "lifetime": ("lifetime", "u64")})
+            g.guard(CL, path, "time_left", r"Ok\(\s*([^()]*?)\s*\)\s*$",
+                    p + "_lifetime_left", [("elapsed", N), ("lifetime", N)],
+                    {"elapsed": ("elapsed", "u64"), "lifetime": ("lifetime", "u64")}, ret="Nat")
+            g.guard(CL, path, "query_left", r"\bif\s+([^{]*?)\s*\{\s*return\s+Err\(\s*Error::IoError\(\s*ErrorKind::TimedOut",
+                    p + "_attempt_over", [("elapsed", N), ("timeout", N)],
+                    {"elapsed": ("elapsed", "u64"), "timeout": ("timeout", "u64")})
+            g.guard(CL, path, "query_left", r"Ok\(\s*(\(timeout[^;]*?)\s*\)\s*$",
+                    p + "_query_left", [("elapsed", N), ("timeout", N), ("lifetime_left", N)],
+                    {"elapsed": ("elapsed", "u64"), "timeout": ("timeout", "u64"), "lifetime_left": ("lifetime_left", "u64")}, ret="Nat")
+    client_guards("src/clients/std/client_impl.rs", "std", True)
+    client_guards("templates/async_client_impl.rs", "async", False)
+    # ClientConfig::check: the two EDNS conditions
+    CC = "src/clients/config/client_config.rs"
+    g.guard(CL, CC, "check", r"\bif\s+(\(udp_payload_size[^{]*?<[^{]*?)\s*\{\s*return\s+Err\(\s*Error::BadParam",
+            "cfg_payload_too_small", [("udp_payload_size", "Nat")], {"udp_payload_size": ("udp_payload_size", "u16")})
+    g.guard(CL, CC, "check", r"\bif\s+(self\.buffer_size_[^{]*?)\s*\{\s*return\s+Err\(\s*Error::BadParam",
+            "cfg_payload_exceeds_buffer", [("udp_payload_size", "Nat"), ("buffer_size", "Nat")],
+            {"udp_payload_size": ("udp_payload_size", "u16"), "self.buffer_size_": ("buffer_size", "usize")})
     e("")
 
     # ---- client struct shapes for the auto-trait model (C19) ---------------------------------------
